@@ -1506,7 +1506,7 @@ class Pregex():
 
         if len(_re.split(pattern=r"(?<!\\)\|", string=temp)) > 1:
                 return _Type.Alternation, True
-        elif _re.fullmatch(r"(?:\^|\\A|\(\?<=.+\)).+|.+(?:(?<!\\)\$|\\Z|\(\?=.+\))",
+        elif _re.fullmatch(r"(?:\^|\\A|\(\?<=.+\)).+|.+(?:(?<!\\)\$|\\Z|(?<!\\)\(\?=.+\))",
             pattern, flags=__class__.__flags) is not None:
             return _Type.Assertion, False
         elif _re.fullmatch(r"(?:\\b|\\B|\(\?<!.+\)).+|.+(?:\\b|\\B|\(\?!.+\))",
